@@ -243,6 +243,22 @@ pub fn structured_family() -> Vec<Vec<u8>> {
         runs.push(varint((len << 2) | 1)); // run of 0x00
         runs.push(varint((len << 2) | 3)); // run of 0xFF
     }
+    // run lengths at the boundaries of the varint groups and of the integer widths a decoder
+    // might use (a five-group varint carries 35 bits, three more than a u32)
+    for len in [(1u64 << 28) - 1, 1 << 28, 1 << 29, (1 << 30) - 1, 1 << 30, (1 << 30) + 1, 1 << 31, 1 << 32, (1 << 33) - 1] {
+        runs.push(varint((len << 2) | 1));
+        // a literal run of that length without the bytes
+        runs.push(varint(len << 1));
+    }
+    // the same small run written with padding groups (non-canonical varints of 2..6 groups)
+    for groups in 2..=6usize {
+        let mut v = vec![0x85u8];
+        for _ in 0..groups - 2 {
+            v.push(0x80);
+        }
+        v.push(0x00);
+        runs.push(v);
+    }
     // literal runs (the bytes follow)
     for len in [1u64, 3, 200] {
         let mut v = varint(len << 1);
